@@ -611,60 +611,83 @@ func Remove(name string) error {
 	w := world()
 	w.enter(true)
 	p, n := w.resolve(name, false)
-	if n == nil {
-		w.log(OpRec{Kind: "remove", Path: name, Err: "ENOENT", Task: w.task()})
-		w.mu.Unlock()
-		return pathErr("remove", name, syscall.ENOENT)
-	}
+	// the call is made, and numbered, whatever the kernel is going to answer
 	fail, killAfter, _ := w.mutate("remove")
+	finish := func(err error, tag string) error {
+		w.log(OpRec{Kind: "remove", Path: name, Err: tag, Mut: w.NMut, Task: w.task()})
+		if killAfter {
+			w.die()
+			w.mu.Unlock()
+			panic(Killed{})
+		}
+		w.mu.Unlock()
+		return err
+	}
 	if fail != nil {
 		w.log(OpRec{Kind: "remove", Path: name, Err: fail.Error(), Mut: w.NMut, Task: w.task()})
 		w.mu.Unlock()
 		return pathErr("remove", name, fail)
 	}
-	delete(w.Nodes, p)
-	w.log(OpRec{Kind: "remove", Path: name, Mut: w.NMut, Task: w.task()})
-	if killAfter {
-		w.die()
-		w.mu.Unlock()
-		panic(Killed{})
+	if n == nil {
+		return finish(pathErr("remove", name, syscall.ENOENT), "ENOENT")
 	}
-	w.mu.Unlock()
-	return nil
+	if n.Mode&ModeDir != 0 {
+		// os.Remove falls back to rmdir; directories of the scenarios are never
+		// emptied by gxz, so the kernel's answer for a directory is what counts
+		for q := range w.Nodes {
+			if path.Dir(q) == p {
+				return finish(pathErr("remove", name, syscall.ENOTEMPTY), "ENOTEMPTY")
+			}
+		}
+	}
+	delete(w.Nodes, p)
+	return finish(nil, "")
 }
 
 func Rename(oldpath, newpath string) error {
 	w := world()
 	w.enter(true)
 	op, n := w.resolve(oldpath, false)
-	if n == nil {
-		w.log(OpRec{Kind: "rename", Path: oldpath, Err: "ENOENT", Task: w.task()})
-		w.mu.Unlock()
-		return &os.LinkError{Op: "rename", Old: oldpath, New: newpath, Err: syscall.ENOENT}
-	}
 	np := clean(newpath)
-	if !w.dirOK(np) {
-		w.mu.Unlock()
-		return &os.LinkError{Op: "rename", Old: oldpath, New: newpath, Err: syscall.ENOENT}
-	}
 	fail, killAfter, _ := w.mutate("rename")
+	finish := func(e syscall.Errno, tag string) error {
+		w.log(OpRec{Kind: "rename", Path: oldpath + " -> " + newpath, Err: tag, Mut: w.NMut, Task: w.task()})
+		if killAfter {
+			w.die()
+			w.mu.Unlock()
+			panic(Killed{})
+		}
+		w.mu.Unlock()
+		if tag == "" {
+			return nil
+		}
+		return &os.LinkError{Op: "rename", Old: oldpath, New: newpath, Err: e}
+	}
 	if fail != nil {
 		w.log(OpRec{Kind: "rename", Path: oldpath + " -> " + newpath, Err: fail.Error(), Mut: w.NMut, Task: w.task()})
 		w.mu.Unlock()
 		return &os.LinkError{Op: "rename", Old: oldpath, New: newpath, Err: fail}
 	}
+	if n == nil {
+		return finish(syscall.ENOENT, "ENOENT")
+	}
+	if !w.dirOK(np) {
+		return finish(syscall.ENOENT, "ENOENT")
+	}
+	if t := w.Nodes[np]; t != nil && op != np {
+		// rename(2): a directory is only replaced by a directory, and vice versa
+		if t.Mode&ModeDir != 0 && n.Mode&ModeDir == 0 {
+			return finish(syscall.EISDIR, "EISDIR")
+		}
+		if t.Mode&ModeDir == 0 && n.Mode&ModeDir != 0 {
+			return finish(syscall.ENOTDIR, "ENOTDIR")
+		}
+	}
 	if op != np {
 		w.Nodes[np] = n // atomic replace
 		delete(w.Nodes, op)
 	}
-	w.log(OpRec{Kind: "rename", Path: oldpath + " -> " + newpath, Mut: w.NMut, Task: w.task()})
-	if killAfter {
-		w.die()
-		w.mu.Unlock()
-		panic(Killed{})
-	}
-	w.mu.Unlock()
-	return nil
+	return finish(0, "")
 }
 
 // ---- helpers for the harness (not used by gxz) ----
